@@ -135,14 +135,16 @@ R1Fields(r) == [Tag |-> r.tag, ManagedSystemSessionID |-> r.sid, RemoteConsoleRa
                 MaxPrivilegeLevel |-> r.priv, Username |-> r.uname]
 Rakp1Vectors ==
   UNION { LET r == [tag |-> (n * 17 + p) % 256, sid |-> RBytes(n, 4), rnd |-> RBytes(n + 5, 16), priv |-> p, lookup |-> lk,
-                    uname |-> [i \in 1..n |-> IF hi THEN 128 + ((i * 7 + n) % 128) ELSE 33 + ((i * 7 + n) % 90)]] IN
-          { [id |-> "RAKP1/ser/" \o ToString(n) \o "-" \o ToString(p) \o (IF lk THEN "L" ELSE "N") \o (IF hi THEN "H" ELSE ""), prop |-> "C08", kind |-> "serialize", layer |-> "RAKPMessage1",
+                    \* printable ASCII; arbitrary high bytes; valid two-byte UTF-8 sequences (fewer characters than bytes)
+                    uname |-> [i \in 1..n |-> CASE hi = 0 -> 33 + ((i * 7 + n) % 90) [] hi = 1 -> 128 + ((i * 7 + n) % 128)
+                                               [] OTHER -> IF (n % 2 = 1 /\ i = 1) THEN 65 ELSE IF (i + (n % 2)) % 2 = 1 THEN 195 ELSE 169]] IN
+          { [id |-> "RAKP1/ser/" \o ToString(n) \o "-" \o ToString(p) \o (IF lk THEN "L" ELSE "N") \o ToString(hi), prop |-> IF n > 16 THEN "C06" ELSE "C08", kind |-> "serialize", layer |-> "RAKPMessage1",
              class |-> IF n > 16 THEN "username-too-long" ELSE "ok", fields |-> R1Fields(r), payload |-> <<>>,
              exp |-> IF n > 16 THEN [err |-> TRUE] ELSE [err |-> FALSE, bytes |-> R1Enc(r)]] }
           \cup (IF n > 16 THEN {} ELSE
-                { [id |-> "RAKP1/dec/" \o ToString(n) \o "-" \o ToString(p) \o (IF lk THEN "L" ELSE "N") \o (IF hi THEN "H" ELSE ""), prop |-> "C08", kind |-> "decode", layer |-> "RAKPMessage1",
+                { [id |-> "RAKP1/dec/" \o ToString(n) \o "-" \o ToString(p) \o (IF lk THEN "L" ELSE "N") \o ToString(hi), prop |-> "C08", kind |-> "decode", layer |-> "RAKPMessage1",
                    class |-> "ok", bytes |-> R1Enc(r), exp |-> [err |-> FALSE, value |-> Without(R1Fields(r), {"Username"})]] })
-          : n \in 0..32, p \in {0, 1, 4, 5, 15}, lk \in BOOLEAN, hi \in BOOLEAN }
+          : n \in 0..32, p \in {0, 1, 4, 5, 15}, lk \in BOOLEAN, hi \in 0..2 }
 
 \* ------------------------------------------------------- set-up responses (C07)
 OsrEnc(o) == <<o.tag, 0, o.priv, 0>> \o o.sidM \o o.sidC \o AlgPayload(0, o.a) \o AlgPayload(1, o.i) \o AlgPayload(2, o.c)
